@@ -621,6 +621,9 @@ func monitor(c fw.Case, out []string) []string {
 			if !ok {
 				continue
 			}
+			if strings.HasPrefix(out[i], "panic downstream") {
+				continue // logged, then a controller crashed on it: C12's statement, not C13's
+			}
 			ans := parseAns(out[i])
 			fails = append(fails, judge(spec, rq, ans)...)
 			// observations around the request
@@ -817,7 +820,7 @@ var Prop = &fw.Prop{
 		"1-5 operations (update/replace/delete, JSON values, odd values), modes valid / mixed (invalid operations in every position among valid ones: unknown leaf, container, textual prefix, key contradiction, characters outside the index alphabet, wrong keys, brackets in names, v0.3 elements, no path, bad target) / wild, " +
 		"prefix off / target / target+elements / elements / odd, extensions (strategy, overrides, malformed, other ids); every request goes through the real gnmi Set on real stores, accepted ones through the real transaction and proposal reconcilers; " +
 		"plus differential lines for RemovePathIndices, AnonymizePathIndices, ExtractIndexNames, IsPathValid, CheckPathIndexIsValid, FindPathFromModel; plus the enumeration of every prefix/path split of every model path. Non-trivial = a mixed valid/invalid request or a prefix is present.",
-	Quick: 900, Thorough: 30000, Workers: 12,
+	Quick: 3000, Thorough: 30000, Workers: 12,
 	Gen: gen, Enumerate: enumerate,
 	NewReal: func() fw.Real { return nbreal.New() },
 	Monitor: monitor,
